@@ -461,6 +461,45 @@ func mapsetFamily() *core.Family {
 					}
 				}
 			}
+			// size thresholds: a set of m members against sets of k members, disjoint or sharing exactly one
+			if i < 14 {
+				sizes := []int{0, 1, 2, 8, 9, 16, 17, 31, 32, 33, 34, 64, 65, 128}
+				m := sizes[int(i)%len(sizes)]
+				big := mapset.Make[int]()
+				for x := 0; x < m; x++ {
+					big.Add(x)
+				}
+				for _, k := range sizes {
+					for _, shared := range []bool{false, true} {
+						other := mapset.Make[int]()
+						for x := 0; x < k; x++ {
+							other.Add(1000 + x)
+						}
+						if shared && m > 0 {
+							other.Add(m - 1)
+						}
+						wantInter := shared && m > 0
+						imBig, imOther := mapset.Immutable(big.Slice()...), mapset.Immutable(other.Slice()...)
+						if big.Intersects(other) != wantInter || other.Intersects(big) != wantInter || imBig.Intersects(imOther) != wantInter || imOther.Intersects(big) != wantInter {
+							t.Fail("mapset-intersects:sizes", fmt.Sprintf("%d members vs %d members, shared=%v", m, other.Len(), shared), fmt.Sprint(wantInter), "differs")
+						}
+						wantEq := m == other.Len()
+						for x := 0; x < m && wantEq; x++ {
+							wantEq = other.Contains(x) // membership itself is checked by the sequences above
+						}
+						if m > 0 && k > 0 {
+							wantEq = false
+						}
+						if big.Equal(other) != wantEq || other.Equal(imBig) != wantEq {
+							t.Fail("mapset-equal:sizes", fmt.Sprintf("%d members vs %d members, shared=%v", m, other.Len(), shared), fmt.Sprint(wantEq), "differs")
+						}
+					}
+				}
+				same := mapset.FromItems(big.Slice()...)
+				if !big.Equal(same) || !same.Equal(mapset.Immutable(big.Slice()...)) || big.Len() != m {
+					t.Fail("mapset-equal:sizes", fmt.Sprintf("%d members vs a copy", m), "true", "false")
+				}
+			}
 			// EntityUIDSet from the uid sequence encoded by the same index (length <= 4)
 			if len(seq) <= 4 {
 				var us []types.EntityUID
